@@ -11,7 +11,10 @@ open SExp
 abbrev Q := Rat
 
 structure DState where
-  /-- font id ↦ layer; the pseudo font "-" holds stand-alone glyphs (`Glyph()`, no layer) -/
+  /-- layer id ↦ layer (`f1` = the default layer of font f1, reached through the `Font` API or through
+  `font.layers.defaultLayer`; `f1:bg` = another layer of the same font; `L1` = a `Layer()` that belongs to no
+  font); the pseudo layer "-" holds stand-alone glyphs (`Glyph()`, no layer).  Components are resolved in
+  the layer of the glyph that holds them — never in another layer of the same font. -/
   fonts : List (String × Layer Q) := []
   poisoned : List (String × String) := []
 
@@ -144,6 +147,15 @@ def errName : Err → String
 
 def ok (x : SExp) : SExp := .list [.atom "ok", x]
 
+/-- the methods of the pen that accept `identifier`: a string over `b` (beginPath), `p` (addPoint),
+`c` (addComponent); `"bpc"` = today's protocol, `""` = the protocol before identifiers -/
+def asCaps? : SExp → Option PenCaps
+  | .str s =>
+    if s.toList.all (fun ch => ch = 'b' ∨ ch = 'p' ∨ ch = 'c') then
+      some ⟨s.toList.contains 'b', s.toList.contains 'p', s.toList.contains 'c'⟩
+    else none
+  | _ => none
+
 /-! ### state access -/
 
 def getLayer (d : DState) (f : String) : Layer Q := (AL.get? d.fonts f).getD []
@@ -194,16 +206,22 @@ def driverStep (d : DState) (line : SExp) : DState × SExp :=
     ({ (setGlyph d f n g) with poisoned := d.poisoned.filter (· ≠ (f, n)) }, ok (dump g))
   | .list [.atom "dump", .str f, .str n] =>
     withGlyph d f n fun g => .ok (d, ok (dump g))
-  | .list [.atom "draw", .str f, .str n] =>
-    withGlyph d f n fun g => .ok (d, ok (ofList ofEv g.draw))
-  | .list [.atom "rebuild", .str f, .str n] =>
-    withGlyph d f n fun g => do
-      let r ← build false g.draw (Glyph.fresh none)
-      .ok (d, ok (dump r))
-  | .list [.atom "drawContour", .str f, .str n, i] =>
-    match asNat? i with
+  | .list [.atom "draw", .str f, .str n, caps] =>
+    match asCaps? caps with
     | none => (d, .atom "bad-op")
-    | some i =>
+    | some caps => withGlyph d f n fun g => .ok (d, ok (ofList ofEv (g.drawTo caps)))
+  | .list [.atom "rebuild", .str f, .str n, caps] =>
+    match asCaps? caps with
+    | none => (d, .atom "bad-op")
+    | some caps =>
+      withGlyph d f n fun g => do
+        let r ← build false (g.drawTo caps) (Glyph.fresh none)
+        .ok (d, ok (dump r))
+  | .list [.atom "drawContour", .str f, .str n, i, caps] =>
+    match asNat? i, asCaps? caps with
+    | none, _ => (d, .atom "bad-op")
+    | _, none => (d, .atom "bad-op")
+    | some i, some caps =>
       withGlyph d f n fun g =>
         -- `glyph[i]` deepens first; a failing deepening leaves a partly deepened (and now poisoned) glyph
         match deepenKeep g with
@@ -212,17 +230,18 @@ def driverStep (d : DState) (line : SExp) : DState × SExp :=
           match g'.contours[i]? with
           | none => .ok ({ (setGlyph d f n g') with poisoned := (f, n) :: d.poisoned }, err (errName .indexError))
           | some c => do
-            let r ← build false (drawContour c) (Glyph.fresh none)
+            let r ← build false (drawContourTo caps c) (Glyph.fresh none)
             .ok (setGlyph d f n g', ok (dump r))
-  | .list [.atom "drawComponent", .str f, .str n, i] =>
-    match asNat? i with
-    | none => (d, .atom "bad-op")
-    | some i =>
+  | .list [.atom "drawComponent", .str f, .str n, i, caps] =>
+    match asNat? i, asCaps? caps with
+    | none, _ => (d, .atom "bad-op")
+    | _, none => (d, .atom "bad-op")
+    | some i, some caps =>
       withGlyph d f n fun g =>
         match g.components[i]? with
         | none => .error .indexError
         | some c => do
-          let r ← build false (drawComponent c) (Glyph.fresh none)
+          let r ← build false (drawComponentTo caps c) (Glyph.fresh none)
           .ok (d, ok (dump r))
   | .list [.atom "segdraw", .str f, .str n] =>
     withGlyph d f n fun g =>
